@@ -257,13 +257,93 @@ async fn case_session(ids: Arc<BTreeMap<u64, Ident>>, conns: Vec<SConn>, kind: &
            meta: json!({"connections": conns.len(), "identical_connection_infos": conns.iter().enumerate().any(|(i, c)| conns[..i].iter().any(|d| d.info == c.info)), "distinct_challenges": seen.len()}) }
 }
 
+
+// ---------------------------------------------------------------- the running peer connection service
+#[derive(Clone, Debug)]
+enum CRemote { Honest(u64), None }
+#[derive(Clone, Debug)]
+struct CConn { circuit: u64, owned: bool, claimed: u64, remote: CRemote }
+
+struct Live { _a_tx: mpsc::Sender<Answer>, _q_tx: mpsc::Sender<QueryProtocol>, _ev_tx: mpsc::Sender<RemoteEvent> }
+
+/// connections sent to the real PeerConnectionService as PeerConnectionMessage::NewConnection(None, ..);
+/// the harness plays the remote end of the six channels
+async fn case_circuit(ids: Arc<BTreeMap<u64, Ident>>, conns: Vec<CConn>, tag: &str, kind: &str, stats: &mut BTreeMap<String, u64>) -> Option<Case> {
+    let me = &ids[&1];
+    let work = std::env::var("VERIF_WORK").unwrap_or("/verif/work".to_string());
+    let dir: PathBuf = PathBuf::from(&work).join("C19").join(tag);
+    let _ = std::fs::remove_dir_all(&dir);
+    std::fs::create_dir_all(&dir).unwrap();
+    let pk: [u8; 32] = me.pubkey.clone().try_into().unwrap();
+    let mut km = [0u8; 32]; km[0..16].copy_from_slice(&me.uid); km[20] = 5;
+    let mut conf = Configuration::default();
+    conf.enable_multicast = false; conf.enable_beacons = false;
+    let events = EventService::new();
+    let (db, vkey, room) = GraphDatabaseService::start(APP, "ns { Person{ name:String } }", &km, &pk, dir.clone(), &conf, events.clone()).await.unwrap();
+    let params = DiscretParams { app_key: APP.to_string(), verifying_key: vkey.clone(), private_room_id: room,
+                                 hardware_fingerprint: HardwareFingerprint { id: [3u8; 16], name: "h".to_string() }, configuration: conf };
+    let services = DiscretServices { events, database: db, signature_verification: SignatureVerificationService::start(1) };
+    let service = match PeerConnectionService::start(&params, &services, MeetingSecret::new(me.secret)).await { Ok(s) => s, Err(_) => { let _ = std::fs::remove_dir_all(&dir); return None; } };
+    let ms = MeetingSecret::new(me.secret);
+    let wait = |ms: u64| std::time::Duration::from_millis(ms);
+    let mut live: Vec<Live> = vec![];
+    let mut obs: Vec<i64> = vec![];
+    let mut terms: Vec<String> = vec![];
+    let mut allowed: Vec<u64> = vec![];
+    for (n, c) in conns.iter().enumerate() {
+        // the token: a fresh invitation of this instance, or the pairwise token of an allowed peer
+        let (token, tt) = if c.owned {
+            let (tx, rx) = tokio::sync::oneshot::channel();
+            let _ = service.sender.send(PeerConnectionMessage::CreateInvite(None, tx)).await;
+            let inv: Invite = bincode::deserialize(&rx.await.unwrap().unwrap()).unwrap();
+            (MeetingSecret::derive_token("P", &inv.invite_id), Tt::Owned(1 + n as u64))
+        } else { (ms.token(&bincode::deserialize(&ids[&c.claimed].pubkey).unwrap()), Tt::Allowed(c.claimed)) };
+        let info = ConnectionInfo { endpoint_id: uid_of(1), remote_id: uid_of(100 + c.circuit), conn_id: uid_of(500 + n as u64), meeting_token: token, peer_verifying_key: ids[&c.claimed].key.clone() };
+        let (a_tx, mut a_rx) = mpsc::channel::<Answer>(8);            // answers of the service to our queries
+        let (ra_tx, ra_rx) = mpsc::channel::<Answer>(8);              // our answers to its queries
+        let (q_tx, mut q_rx) = mpsc::channel::<QueryProtocol>(8);     // its queries
+        let (rq_tx, rq_rx) = mpsc::channel::<QueryProtocol>(8);       // our queries
+        let (ev_tx, mut ev_rx) = mpsc::channel::<RemoteEvent>(8);     // its events
+        let (rev_tx, rev_rx) = mpsc::channel::<RemoteEvent>(8);       // our events
+        let _ = service.sender.send(PeerConnectionMessage::NewConnection(None, info, a_tx, ra_rx, q_tx, rq_rx, ev_tx, rev_rx)).await;
+        // its identity challenge
+        let challenge = match tokio::time::timeout(wait(2000), q_rx.recv()).await { Ok(Some(QueryProtocol { id, query: Query::ProveIdentity(ch) })) => Some((id, ch)), _ => None };
+        // (a) the room list is asked for while the proof is pending
+        let _ = rq_tx.send(QueryProtocol { id: 100, query: Query::RoomList }).await;
+        let before = matches!(tokio::time::timeout(wait(150), a_rx.recv()).await, Ok(Some(_)));
+        // the answer to the challenge
+        let remote = match (&c.remote, &challenge) {
+            (CRemote::Honest(k), Some((id, ch))) => {
+                let a = Ans { key: *k, sig_by: Some(*k), sig_over: 0, room: false, entity_ok: true, rowsig_ok: true, pubkey_ok: true };
+                let _ = ra_tx.send(Answer { id: *id, success: true, complete: true, serialized: answer_bytes(&ids, &a, ch, &[0x5au8; 32]) }).await;
+                Remote::Ans(a)
+            }
+            _ => Remote::Closed,
+        };
+        let event = match tokio::time::timeout(wait(if matches!(remote, Remote::Ans(_)) { 1500 } else { 100 }), ev_rx.recv()).await { Ok(Some(RemoteEvent::Ready)) => 0, Ok(Some(RemoteEvent::ReadyFingerprint)) => 1, _ => -1 };
+        // (b) and again afterwards
+        while a_rx.try_recv().is_ok() {}
+        let _ = rq_tx.send(QueryProtocol { id: 101, query: Query::RoomList }).await;
+        let after = matches!(tokio::time::timeout(wait(if event >= 0 { 1500 } else { 150 }), a_rx.recv()).await, Ok(Some(_)));
+        if event == 0 && c.owned { tokio::time::sleep(wait(150)).await; if let CRemote::Honest(k) = &c.remote { allowed.push(*k); } }   // InviteAccepted is processed by the service
+        *stats.entry(format!("circuit.{}.{}", if before { "SERVED-BEFORE-PROOF" } else { "not-served-before-proof" }, if after { "served-after" } else { "not-served-after" })).or_insert(0) += 1;
+        obs.extend([before as i64, event, after as i64]);
+        terms.push(format!("({}, {}, {})", gn(c.circuit), tt_coq(&tt), remote_coq(&remote)));
+        live.push(Live { _a_tx: ra_tx, _q_tx: rq_tx, _ev_tx: rev_tx });   // the connection stays registered
+    }
+    drop(live);
+    let _ = std::fs::remove_dir_all(&dir);
+    let _ = allowed;
+    Some(Case { kind: kind.to_string(), coq: format!("CCircuit 1%N {}", glist(&terms)), obs, meta: json!({"connections": conns.len()}) })
+}
+
 // ---------------------------------------------------------------- invitations on a real PeerManager
 #[derive(Clone, Debug)]
 enum TokRef { Inv(u64), Peer(u64), Own }
 #[derive(Clone, Debug)]
 enum Op { Create, Accept(Option<(u64, u64, Option<u64>)>), Lookup(TokRef, u64), Consume(TokRef, u64) }
 
-struct Instance { pm: PeerManager, ms: MeetingSecret, own_token: [u8; 7], vkey: Vec<u8>, dir: PathBuf, _ep_rx: mpsc::Receiver<discret::verif_hooks::network::endpoint::EndpointMessage> }
+struct Instance { pm: PeerManager, ms: MeetingSecret, own_token: [u8; 7], vkey: Vec<u8>, params: DiscretParams, services: DiscretServices, secret: [u8; 32], dir: PathBuf, _ep_rx: mpsc::Receiver<discret::verif_hooks::network::endpoint::EndpointMessage> }
 async fn instance(me: &Ident, tag: &str) -> Instance {
     let work = std::env::var("VERIF_WORK").unwrap_or("/verif/work".to_string());
     let dir: PathBuf = PathBuf::from(&work).join("C19").join(tag);
@@ -282,7 +362,139 @@ async fn instance(me: &Ident, tag: &str) -> Instance {
     let own = services.database.get_allowed_peers(room).await.unwrap();
     let own_token = MeetingSecret::decode_token(&own[0].meeting_token).unwrap();
     let pm = PeerManager::new(&params, &services, endpoint, None, MeetingSecret::new(me.secret)).await.unwrap();
-    Instance { pm, ms, own_token, vkey, dir, _ep_rx: ep_rx }
+    Instance { pm, ms, own_token, vkey, params, services, secret: me.secret, dir, _ep_rx: ep_rx }
+}
+
+
+// ---------------------------------------------------------------- the table and the database behind it
+#[derive(Clone, Debug)]
+enum DOp { Create(u8), Accept(Option<(u64, u64, Option<u64>)>), Lookup(TokRef, u64), Consume(TokRef, u64), Restart }
+
+async fn run_dops(ids: &BTreeMap<u64, Ident>, inst: &mut Instance, ops: &[DOp]) -> (Vec<i64>, Vec<String>) {
+    use discret::DefaultRoom;
+    let mut inv_uid: BTreeMap<u64, [u8; 16]> = BTreeMap::new();
+    for i in 20..30 { inv_uid.insert(i, invite_uid(i)); }
+    let mut created = 0u64;
+    let mut obs = vec![];
+    let mut terms = vec![];
+    let vkey = inst.vkey.clone();
+    let key_idx = |k: &[u8]| -> i64 { if k == vkey.as_slice() { 1 } else { ids.iter().find(|(n, v)| **n != 1 && v.key == k).map(|(n, _)| *n as i64).unwrap_or(-2) } };
+    let keyb = |k: u64| -> Vec<u8> { if k == 1 { vkey.clone() } else { ids[&k].key.clone() } };
+    let peer_term = |p: u64| format!("{{| p_key := {}; p_pub := {} |}}", gn(p), gn(p));
+    // a room of this instance in which new peers can be granted access
+    let mut good_room: Option<(String, String)> = None;
+    for op in ops {
+        match op {
+            DOp::Create(g) => {
+                created += 1;
+                let dr = match g {
+                    0 => None,
+                    1 => {
+                        if good_room.is_none() {
+                            let mut pa = discret::Parameters::default();
+                            discret::ParametersAdd::add(&mut pa, "k", base64_encode(&vkey)).unwrap();
+                            let r = inst.services.database.mutate_raw("mutate { sys.Room{ admin:[{verif_key:$k}] authorisations:[{ name:\"g\" rights:[{entity:\"ns.Person\" mutate_self:true mutate_all:false}] }] } }", Some(pa)).await.unwrap();
+                            let ri = &r.mutate_entities[0];
+                            good_room = Some((base64_encode(&ri.node_to_mutate.id), base64_encode(&ri.sub_nodes.get("authorisations").unwrap()[0].node_to_mutate.id)));
+                        }
+                        let (room, authorisation) = good_room.clone().unwrap();
+                        Some(DefaultRoom { room, authorisation })
+                    }
+                    _ => Some(DefaultRoom { room: base64_encode(&uid_of(8800 + created)), authorisation: base64_encode(&uid_of(8900 + created)) }),   // create_invite does not check them
+                };
+                match inst.pm.create_invite(dr).await { Ok(b) => { let inv: Invite = bincode::deserialize(&b).unwrap(); inv_uid.insert(created, inv.invite_id); obs.push(1); } Err(_) => obs.push(0) }
+                obs.push(created as i64);
+                terms.push(format!("DCreate {}", gn(*g as u64)));
+            }
+            DOp::Accept(None) => { let r = inst.pm.accept_invite(&[1, 2, 3, 4, 5]).await; obs.push(r.is_ok() as i64); obs.push(0); terms.push("DAccept Garbage".to_string()); }
+            DOp::Accept(Some((i, app, signer))) => {
+                let inv = make_invite_uid(ids, *inv_uid.get(i).unwrap_or(&invite_uid(*i)), *app, *signer);
+                let r = inst.pm.accept_invite(&bincode::serialize(&inv).unwrap()).await;
+                obs.push(r.is_ok() as i64); obs.push(0);
+                terms.push(format!("DAccept (InviteFor {} {} {})", gn(*i), gn(*app), gon(*signer)));
+            }
+            DOp::Restart => {
+                // PeerManager::new reads the allowed peers and the invitations back from the database
+                let (ep_tx, ep_rx) = mpsc::channel(64);
+                let endpoint = DiscretEndpoint { id: uid_of(9), sender: ep_tx, ipv4_port: 0, ipv4_cert_hash: [0u8; 32] };
+                inst.pm = PeerManager::new(&inst.params, &inst.services, endpoint, None, MeetingSecret::new(inst.secret)).await.unwrap();
+                inst._ep_rx = ep_rx;
+                obs.push(1); obs.push(0);
+                terms.push("DRestart".to_string());
+            }
+            DOp::Lookup(tr, k) | DOp::Consume(tr, k) => {
+                let (token, tkt) = match tr {
+                    TokRef::Inv(i) => (MeetingSecret::derive_token("P", inv_uid.get(i).unwrap_or(&invite_uid(99))), format!("(TkInvite {})", gn(*i))),
+                    TokRef::Peer(p) => (inst.ms.token(&bincode::deserialize(&ids[p].pubkey).unwrap()), if *p == 1 { "(TkSelf 1%N)".to_string() } else { format!("(TkPair 1%N {})", gn(*p)) }),
+                    TokRef::Own => (inst.own_token, "TkOwn".to_string()),
+                };
+                let tt = inst.pm.get_token_type(&token, &keyb(*k));
+                let rank = |u: &[u8; 16]| -> i64 { inv_uid.iter().find(|(_, v)| *v == u).map(|(n, _)| *n as i64).unwrap_or(-2) };
+                let (a, b) = match &tt {
+                    Err(_) => (0, 0),
+                    Ok(TokenType::AllowedPeer(ap)) => (1, key_idx(&base64_decode(ap.peer.verifying_key.as_bytes()).unwrap())),
+                    Ok(TokenType::OwnedInvite(o)) => (2, rank(&o.id)),
+                    Ok(TokenType::Invite(i)) => (3, rank(&i.invite_id)),
+                };
+                if let DOp::Lookup(_, _) = op {
+                    obs.push(a); obs.push(b);
+                    terms.push(format!("DLookup {} {}", tkt, gn(*k)));
+                } else {
+                    // what initialise_connection does once the remote has proved key k on this token
+                    let granted = match tt {
+                        Ok(t @ TokenType::OwnedInvite(_)) => { let _ = inst.pm.invite_accepted(t, peer_row(&ids[k])).await; true }
+                        Ok(TokenType::Invite(inv)) => {
+                            let signer_ok = discret::verif_hooks::security::import_verifying_key(&ids[k].key).map(|vk| vk.verify(&inv.hash(), &inv.invite_sign).is_ok()).unwrap_or(false);
+                            if signer_ok { let _ = inst.pm.invite_accepted(TokenType::Invite(inv), peer_row(&ids[k])).await; }
+                            signer_ok
+                        }
+                        _ => false,
+                    };
+                    obs.push(a); obs.push(granted as i64);
+                    terms.push(format!("DConsume {} {}", tkt, peer_term(*k)));
+                }
+            }
+        }
+    }
+    (obs, terms)
+}
+
+fn gen_dops(rng: &mut Rng, directed: Option<usize>) -> Vec<DOp> {
+    match directed {
+        // an invitation with a default room that cannot be granted: used, presented again, restart, presented again
+        Some(0) => return vec![DOp::Create(2), DOp::Consume(TokRef::Inv(1), 2), DOp::Lookup(TokRef::Inv(1), 3), DOp::Restart, DOp::Lookup(TokRef::Inv(1), 3), DOp::Consume(TokRef::Inv(1), 3), DOp::Lookup(TokRef::Peer(2), 2)],
+        Some(1) => return vec![DOp::Create(2), DOp::Consume(TokRef::Inv(1), 2), DOp::Consume(TokRef::Inv(1), 3), DOp::Restart, DOp::Consume(TokRef::Inv(1), 4)],
+        // ... used once, then only after a restart: must be unknown (the stored row is deleted before the grant)
+        Some(4) => return vec![DOp::Create(2), DOp::Consume(TokRef::Inv(1), 2), DOp::Restart, DOp::Lookup(TokRef::Inv(1), 3), DOp::Consume(TokRef::Inv(1), 3), DOp::Lookup(TokRef::Peer(2), 2), DOp::Lookup(TokRef::Peer(3), 3)],
+        // a default room that can be granted, and none: consumed once, gone after a restart as well
+        Some(2) => return vec![DOp::Create(1), DOp::Create(0), DOp::Consume(TokRef::Inv(1), 2), DOp::Restart, DOp::Consume(TokRef::Inv(1), 3), DOp::Consume(TokRef::Inv(2), 3), DOp::Restart, DOp::Consume(TokRef::Inv(2), 4), DOp::Lookup(TokRef::Peer(2), 2), DOp::Lookup(TokRef::Peer(3), 3)],
+        // pending invitations survive a restart; a received one is consumed by its signer only
+        Some(3) => return vec![DOp::Create(0), DOp::Accept(Some((27, 1, Some(2)))), DOp::Restart, DOp::Consume(TokRef::Inv(27), 3), DOp::Consume(TokRef::Inv(27), 2), DOp::Consume(TokRef::Inv(1), 3), DOp::Restart, DOp::Consume(TokRef::Inv(27), 2), DOp::Consume(TokRef::Inv(1), 4)],
+        _ => {}
+    }
+    let n = 3 + rng.below(8) as usize;
+    let mut ops = vec![];
+    let mut created = 0u64;
+    let allow_bad_reuse = rng.chance(1, 4);
+    let mut used_bad: Vec<u64> = vec![];
+    let mut grants: Vec<u8> = vec![];
+    for _ in 0..n {
+        let pick_inv = |rng: &mut Rng, created: u64| -> u64 { if created == 0 || rng.chance(1, 4) { 20 + rng.below(3) } else { 1 + rng.below(created) } };
+        match rng.below(10) {
+            0..=2 => { created += 1; let g = *rng.pick(&[0u8, 0, 1, 2, 2]); grants.push(g); ops.push(DOp::Create(g)); }
+            3 => ops.push(DOp::Accept(if rng.chance(1, 8) { None } else { Some((20 + rng.below(3), if rng.chance(4, 5) { 1 } else { 2 }, Some(2 + rng.below(3)))) })),
+            4 => ops.push(DOp::Lookup(match rng.below(4) { 0 | 1 => TokRef::Inv(pick_inv(rng, created)), 2 => TokRef::Own, _ => TokRef::Peer(1 + rng.below(4)) }, 1 + rng.below(4))),
+            5 | 6 => { used_bad.clear(); ops.push(DOp::Restart); }
+            _ => {
+                let inv = pick_inv(rng, created);
+                let bad = inv >= 1 && inv <= created && grants[inv as usize - 1] == 2;
+                if bad && used_bad.contains(&inv) && !allow_bad_reuse { continue; }
+                if bad { used_bad.push(inv); }
+                ops.push(DOp::Consume(TokRef::Inv(inv), 2 + rng.below(3)));
+            }
+        }
+    }
+    ops
 }
 
 fn gen_ops(rng: &mut Rng, directed: Option<usize>) -> Vec<Op> {
@@ -414,6 +626,54 @@ async fn main() {
         cases.push(Case { kind: if n == 0 { "K1-owned-invite-twice".to_string() } else if n == 1 { "K1-received-invite-twice".to_string() } else if n == 3 { "K3-invite-registered-twice".to_string() } else if n < 6 { "invites-directed".to_string() } else { "invites".to_string() },
                           coq: format!("CInvites 1%N {{| s_bytes := 1%N; s_pub := 1%N |}} 1%N {}", glist(&terms)), obs,
                           meta: json!({"ops": ops.len(), "consumed_twice": twice}) });
+    }
+
+
+    // ---------------- the table with its database: default rooms, restarts
+    for n in 0..scale(30, 300) {
+        let ops = gen_dops(&mut rng, if n < 5 { Some(n) } else { None });
+        let mut inst = instance(&ids[&1], &format!("db_{}_{}", seed(), n)).await;
+        let (obs, terms) = run_dops(&ids, &mut inst, &ops).await;
+        let dir = inst.dir.clone();
+        drop(inst);
+        let _ = std::fs::remove_dir_all(&dir);
+        let mut grants: BTreeMap<u64, u64> = BTreeMap::new();
+        for (i, op) in ops.iter().enumerate() { if let DOp::Consume(TokRef::Inv(v), _) = op { if obs[2 * i + 1] == 1 { *grants.entry(*v).or_insert(0) += 1; } } }
+        let restarts = ops.iter().filter(|o| matches!(o, DOp::Restart)).count();
+        *stats.entry(format!("invdb.{}", if grants.values().any(|c| *c > 1) { "granted-more-than-once" } else if grants.is_empty() { "nothing-consumed" } else { "consumed-once" })).or_insert(0) += 1;
+        cases.push(Case { kind: if n < 2 { "K4-ungrantable-default-room".to_string() } else if n < 5 { "invdb-directed".to_string() } else { "invdb".to_string() },
+                          coq: format!("CInvDb 1%N {{| s_bytes := 1%N; s_pub := 1%N |}} 1%N {}", glist(&terms)), obs,
+                          meta: json!({"ops": ops.len(), "restarts": restarts}) });
+    }
+
+
+    // ---------------- the running service: a connection is served only after its own proof
+    {
+        let h = |k: u64| CRemote::Honest(k);
+        // peer 2 comes in with an invitation on circuit 7 and is served; then, announcing the SAME circuit:
+        // a connection that never answers, one that proves another valid key, the honest peer again, and one on a new circuit
+        let directed = vec![
+            CConn { circuit: 7, owned: true, claimed: 2, remote: h(2) },
+            CConn { circuit: 7, owned: false, claimed: 2, remote: CRemote::None },
+            CConn { circuit: 7, owned: false, claimed: 2, remote: h(3) },
+            CConn { circuit: 7, owned: false, claimed: 2, remote: h(2) },
+            CConn { circuit: 8, owned: false, claimed: 2, remote: CRemote::None },
+            CConn { circuit: 7, owned: true, claimed: 3, remote: CRemote::None },
+        ];
+        if let Some(c) = case_circuit(ids.clone(), directed, &format!("svc_{}_d", seed()), "circuit-directed", &mut stats).await { cases.push(c); }
+        for n in 0..scale(6, 60) {
+            let mut conns = vec![CConn { circuit: 1, owned: true, claimed: 2, remote: h(2) }];
+            for _ in 0..(2 + rng.below(4)) {
+                let circuit = if rng.chance(2, 3) { 1 } else { 1 + rng.below(3) };
+                conns.push(match rng.below(5) {
+                    0 => CConn { circuit, owned: true, claimed: 3, remote: if rng.chance(1, 2) { h(3) } else { CRemote::None } },
+                    1 => CConn { circuit, owned: false, claimed: 2, remote: h(2) },
+                    2 => CConn { circuit, owned: false, claimed: 2, remote: h(2 + rng.below(3)) },
+                    _ => CConn { circuit, owned: false, claimed: 2, remote: CRemote::None },
+                });
+            }
+            if let Some(c) = case_circuit(ids.clone(), conns, &format!("svc_{}_{}", seed(), n), "circuit", &mut stats).await { cases.push(c); }
+        }
     }
 
     // ---------------- handshakes
